@@ -1468,7 +1468,10 @@ func (ctx *RenderContext) getAttribute(obj interface{}, attr string) (interface{
 		}
 
 		if method.IsValid() {
-			results := method.Call(nil)
+			results, err := safeCallMethod(method, attr)
+			if err != nil {
+				return nil, err
+			}
 			if len(results) > 0 {
 				return results[0].Interface(), nil
 			}
@@ -1478,6 +1481,18 @@ func (ctx *RenderContext) getAttribute(obj interface{}, attr string) (interface{
 
 	// Instead of returning an error for attributes not found, just return nil
 	return nil, nil
+}
+
+// safeCallMethod calls a method of a context value. A panic inside it (for instance
+// a method promoted from an embedded pointer or interface that is nil) becomes an
+// error of the render instead of unwinding through it, as text/template does
+func safeCallMethod(method reflect.Value, name string) (results []reflect.Value, err error) {
+	defer func() {
+		if r := recover(); r != nil {
+			err = fmt.Errorf("error calling method %s: %v", name, r)
+		}
+	}()
+	return method.Call(nil), nil
 }
 
 // evaluateBinaryOp evaluates a binary operation
